@@ -294,6 +294,28 @@ def gen_C09(c, rng, tier):
             for u in us:
                 cl = ['boundary' if u in cum else 'zero' if u == 0 else 'other'] + (['has_zero_weight'] if any(w == 0 for w in ws) else [])
                 c.add(t, 'select', [toks(fmt, ws), fmt.tok(u)], classes=cl, nontrivial=(u in cum or any(w == 0 for w in ws)))
+    gen_C09_runs(c, rng, tier)
+
+def gen_C09_runs(c, rng, tier):
+    """channel selection inside real multi-channel iterations: the number that selects the channel comes from std::generate_canonical on the
+    scripted engine - smallest and largest raw outputs, disabled channels first / in the middle / last"""
+    for t in TYPES:
+        fmt = FMTS[t]
+        for _ in range(scale(tier, 10, 80)):
+            channels = rng.choice([2, 3, 5]); dims = rng.choice([1, 2])
+            ws = rand_weights(rng, fmt, channels)
+            if rng.random() < 0.5: ws[0] = Fraction(0)
+            if rng.random() < 0.3: ws[-1] = Fraction(0)
+            if all(w == 0 for w in ws): ws[channels // 2] = Fraction(1)
+            n = rng.choice([6, 12])
+            extremes = [0, 2 ** 64 - 1, 2 ** 64 - 2, 1, 2 ** 63, 2 ** 63 - 1, min(2 ** 64 - 1, 2 ** 64 - 2 ** max(0, 63 - fmt.prec)), 2 ** (64 - fmt.prec), 2 ** 62, 3 * 2 ** 62]
+            raw = []
+            for i in range(n):
+                raw += [rng.getrandbits(64) for _ in range(dims)] + [rng.choice(extremes)]
+            s = spec_run('mc', fmt, dims=dims, channels=channels, raw=raw, chk=['weights', toks(fmt, ws), fmt.rtok(0), fmt.rtok(Fraction(1, 4))],
+                         f=['tab', toks(fmt, [Fraction(1), Fraction(0), Fraction(2)])], mp=rand_map_tab(rng, fmt, channels), trace=1, ops=[['run', [n]], ['dump']])
+            c.add(t, 'run', s, classes=['selection_in_real_runs'] + (['first_channel_disabled'] if ws[0] == 0 else []) + (['last_channel_disabled'] if ws[-1] == 0 else []),
+                  info={'kind': 'mc', 'dims': dims, 'channels': channels, 'calls': [n]})
 
 @prop('C07', 'refinements of valid grids (uniform/random/peaked/tied/1-ulp bins) with data all-zero / single non-zero / exponent-spanning / random, '
       'alpha in {0,.5,1.5,3}, chains of refinements; inverse CDF at 0, pred(1), 1, every j/bins and neighbours; 3 types; '
